@@ -115,16 +115,16 @@ theorem C19_long_line_refused (limit : Nat) (line rest : Bytes) (cur : Nat) (hcu
 example : (feed 8 0 ["NOO".b, "P\nRS".b, "ET\n".b]).2 = false := by decide +kernel
 example : (feed 8 0 ["NOOPNOOP".b, "X\n".b]).2 = true := by decide +kernel
 
-/-! ### the limit coming back after a BDAT chunk (`lineLimitReader.resume`, repaired in ebe7440) -/
+/-! ### the limit coming back after a BDAT chunk (`lineLimitReader.resume`, repaired in ebe7440 and 9f1d982) -/
 
 /-- **C19_resume_short_ok.**  When the limit is put back after a chunk, whatever the limiter had counted before and during the
-    chunk is forgotten: if what is pending in bufio's buffer together with what arrives afterwards — in any segmentation — consists
-    of lines within the maximum, nothing is refused for its length.  (Before the repair a stale count of payload octets made the
-    limiter refuse short commands.) -/
-theorem C19_resume_short_ok (w : W) (limit : Nat) (hl : 0 < limit) (lines chunks : List Bytes)
-    (hseg : w.buf ++ chunks.flatten = lines.flatMap (fun l => l ++ [LF]))
+    chunk is forgotten: if the octets counted at that moment (`pending`: the buffered command lines, see `Server.cutAtBdat`) together
+    with what is read afterwards — in any segmentation — consist of lines within the maximum, nothing is refused for its length.
+    (Before the repair a stale count of payload octets made the limiter refuse short commands.) -/
+theorem C19_resume_short_ok (w : W) (limit : Nat) (hl : 0 < limit) (pending : Bytes) (lines chunks : List Bytes)
+    (hseg : pending ++ chunks.flatten = lines.flatMap (fun l => l ++ [LF]))
     (h : ∀ l ∈ lines, (∀ b ∈ l, b ≠ LF) ∧ l.length + 1 ≤ limit) (ht : w.tripped = false) :
-    (resume w limit).tripped = false ∧ (feed limit (resume w limit).cur chunks).2 = false := by
+    (resume w limit pending).tripped = false ∧ (feed limit (resume w limit pending).cur chunks).2 = false := by
   have hall := countLoop_lines limit lines 0 (by omega) h
   rw [← hseg, countLoop_append] at hall
   have hne : (limit == 0) = false := by
@@ -134,7 +134,7 @@ theorem C19_resume_short_ok (w : W) (limit : Nat) (hl : 0 < limit) (lines chunks
               omega
   unfold resume
   simp only [hne, Bool.false_eq_true, if_false]
-  cases hc : countLoop limit 0 w.buf with
+  cases hc : countLoop limit 0 pending with
   | mk c' trip =>
     rw [hc] at hall
     cases trip with
@@ -144,11 +144,11 @@ theorem C19_resume_short_ok (w : W) (limit : Nat) (hl : 0 < limit) (lines chunks
       exact ⟨by simp [ht], by rw [feed_flatten]; exact hall⟩
 
 /-- **C19_resume_counts_pending.**  The beginning of a command line that was read together with the end of a chunk counts: if
-    the pending octets (no LF) and the octets of the same line that arrive next exceed the maximum, the limiter trips — in the
-    buffer already, or in the read that takes the line over the maximum.  (Before the repair these octets were never counted.) -/
-theorem C19_resume_counts_pending (w : W) (limit : Nat) (hl : 0 < limit) (more rest : Bytes)
-    (hno1 : ∀ b ∈ w.buf, b ≠ LF) (hno2 : ∀ b ∈ more, b ≠ LF) (hlen : w.buf.length + more.length > limit) :
-    (resume w limit).tripped = true ∨ (countLoop limit (resume w limit).cur (more ++ rest)).2 = true := by
+    the pending octets (no LF) and the octets of the same line that arrive next exceed the maximum, the limiter trips — at once,
+    or in the read that takes the line over the maximum.  (Before the repair these octets were never counted.) -/
+theorem C19_resume_counts_pending (w : W) (limit : Nat) (hl : 0 < limit) (pending more rest : Bytes)
+    (hno1 : ∀ b ∈ pending, b ≠ LF) (hno2 : ∀ b ∈ more, b ≠ LF) (hlen : pending.length + more.length > limit) :
+    (resume w limit pending).tripped = true ∨ (countLoop limit (resume w limit pending).cur (more ++ rest)).2 = true := by
   have hne : (limit == 0) = false := by
     cases h0 : limit == 0 with
     | false => rfl
@@ -156,24 +156,31 @@ theorem C19_resume_counts_pending (w : W) (limit : Nat) (hl : 0 < limit) (more r
               omega
   unfold resume
   simp only [hne, Bool.false_eq_true, if_false]
-  by_cases hb : w.buf.length ≤ limit
-  · have hc := countLoop_content limit 0 w.buf hno1 (by omega)
+  by_cases hb : pending.length ≤ limit
+  · have hc := countLoop_content limit 0 pending hno1 (by omega)
     rw [hc]
     right
     simp only [Nat.zero_add]
-    exact C19_long_line_trips limit more rest w.buf.length hno2 hb (by omega)
+    exact C19_long_line_trips limit more rest pending.length hno2 hb (by omega)
   · left
-    have := C19_long_line_trips limit w.buf [] 0 hno1 (by omega) (by omega)
+    have := C19_long_line_trips limit pending [] 0 hno1 (by omega) (by omega)
     rw [List.append_nil] at this
-    cases hc : countLoop limit 0 w.buf with
+    cases hc : countLoop limit 0 pending with
     | mk c' trip =>
       rw [hc] at this
       simp at this
       simp [this]
 
-example : (resume { buf := "NOOP\r\nNO".b, cur := 77, limit := 0 } 8).tripped = false ∧
-    (resume { buf := "NOOP\r\nNO".b, cur := 77, limit := 0 } 8).cur = 3 := by decide +kernel
-example : (resume { buf := "NOOPNOOPX".b, limit := 0 } 8).tripped = true := by decide +kernel
+example : (resume { cur := 77, limit := 0 } 8 "NOOP\r\nNO".b).tripped = false ∧
+    (resume { cur := 77, limit := 0 } 8 "NOOP\r\nNO".b).cur = 3 := by decide +kernel
+example : (resume { limit := 0 } 8 "NOOPNOOPX".b).tripped = true := by decide +kernel
+
+/-- **C19_next_chunk_payload_not_counted.**  What the server counts when the limit comes back stops behind the next BDAT command
+    line: the payload of a pipelined next chunk, already buffered, is not taken for command lines however long its runs without LF
+    are.  (Concrete instance; the cut is `Server.cutAtBdat`.) -/
+example : SmtpV.Server.cutAtBdat 100 ("NOOP\r\nbdat 3000 last\r\n".b ++ List.replicate 40 120) = "NOOP\r\nbdat 3000 last\r\n".b := by
+  decide +kernel
+example : SmtpV.Server.cutAtBdat 100 "NOOP\r\nMAIL FROM:<a@b>\r\nRC".b = "NOOP\r\nMAIL FROM:<a@b>\r\nRC".b := by decide +kernel
 
 /-! ### the error threshold and the tripped limiter, on the server model -/
 open SmtpV.Server in
